@@ -42,11 +42,11 @@ func (h *Static) GetCommittee(_ context.Context, instance uint64) (*gpbft.Commit
 	h.cache[instance] = c
 	return c, nil
 }
-func (h *Static) NetworkName() gpbft.NetworkName                { return h.NN }
-func (h *Static) RequestBroadcast(*gpbft.MessageBuilder) error  { return nil }
-func (h *Static) RequestRebroadcast(gpbft.Instant) error        { return nil }
-func (h *Static) Time() time.Time                               { return time.Unix(1_700_000_000, 0) }
-func (h *Static) SetAlarm(time.Time)                            {}
+func (h *Static) NetworkName() gpbft.NetworkName               { return h.NN }
+func (h *Static) RequestBroadcast(*gpbft.MessageBuilder) error { return nil }
+func (h *Static) RequestRebroadcast(gpbft.Instant) error       { return nil }
+func (h *Static) Time() time.Time                              { return time.Unix(1_700_000_000, 0) }
+func (h *Static) SetAlarm(time.Time)                           {}
 func (h *Static) ReceiveDecision(context.Context, *gpbft.Justification) (time.Time, error) {
 	return time.Time{}, errors.New("static host")
 }
